@@ -125,7 +125,7 @@ func pick(r *core.Rand, b *built) {
 func build(root *core.Rand, i int, set *hplug.Set, big bool) *built {
 	r := root.Fork(uint64(i))
 	b := &built{kind: kinds[i%len(kinds)], mode: c18x.Modes[(i/len(kinds))%len(c18x.Modes)], stream: "regular"}
-	if i%7 == 6 {
+	if i%5 == 4 {
 		b.stream = "irregular"
 	}
 	// shape parameters come from the PRNG (not from the index) so that they are independent of kind and mode
@@ -141,7 +141,7 @@ func build(root *core.Rand, i int, set *hplug.Set, big bool) *built {
 	}
 	b.secure = c18x.AddSecure(r, b.plan, 0.35, strict, g.Nonce)
 	if b.stream == "irregular" {
-		b.did = c18x.Irregular(r, b.plan)
+		b.did = c18x.Irregular(r, b.plan, i/5)
 	}
 	c18x.Decorate(r, b.plan, b.mode, set.Reg)
 	if b.stream == "irregular" && b.mode != "fresh" && r.Chance(0.5) {
